@@ -158,3 +158,132 @@ class CacheModel:
             and isinstance(call.func.value, ast.Name)
             and call.func.value.id == "self"
         )
+
+
+# ---- meaning-level queries shared by the C05 / C06 / C09 rules -------------------------------------------
+# The rules ask WHAT a branch establishes and WHICH events lie on a path, not how a statement is spelled.
+
+def branch_filter(fa, excuse):
+    """An `edge_ok` for CFG.reach / must_pass / path that refuses every branch edge whose taking IMPLIES a
+    literal accepted by `excuse(text, polarity)`.  Literals are those of FA._atoms: locals expanded through
+    their definitions, `not`, De Morgan, `is not` / `!=` / `not in` normalised, so `if self.read_only: return`,
+    `if not self.read_only: <body>` and `ro = self.read_only ... if ro:` all give the literal
+    ('self.read_only', True) on the edge that leaves.  A disjunction taken true implies none of its parts and
+    is (correctly) not excused."""
+    memo = {}
+
+    def edge_ok(s, d, l):
+        if l not in ("T", "F"):
+            return True
+        k = (s, l)
+        if k not in memo:
+            nd = fa.cfg.node(s)
+            ok = True
+            if nd.kind == "test":
+                try:
+                    atoms = fa._atoms(nd.ast, s, l == "T")
+                except AnalysisError:
+                    atoms = []
+                ok = not any(excuse(t, p) for (t, p) in atoms)
+            memo[k] = ok
+        return memo[k]
+
+    return edge_ok
+
+
+def both(*filters):
+    fs = [f for f in filters if f is not None]
+    return lambda s, d, l: all(f(s, d, l) for f in fs)
+
+
+def no_back_edges(s, d, l):
+    """edge_ok restricting a query to ONE iteration of every loop."""
+    return l not in ("back", "continue")
+
+
+def every_path_through(fa, anchors, events, edge_ok=None) -> bool:
+    """Does every entry->exit path that passes one of the CFG nodes `anchors` also pass one of `events`
+    (before or after the anchor)?  <=> for each anchor: all ways in pass an event, or all ways out do."""
+    cfg = fa.cfg
+    events = set(events)
+    for a in anchors:
+        if a in events:
+            continue
+        before = cfg.must_pass(events, a, edge_ok=edge_ok)
+        after = cfg.exit not in cfg.reach([a], removed=events, edge_ok=edge_ok, include_start=False)
+        if not (before or after):
+            return False
+    return True
+
+
+def at_most_once(fa, events) -> bool:
+    """No path executes two of the `events` nodes within one loop iteration."""
+    cfg = fa.cfg
+    events = list(dict.fromkeys(events))
+    for e in events:
+        r = cfg.reach([e], edge_ok=no_back_edges, include_start=False)
+        if any(x in r for x in events):
+            return False
+    return True
+
+
+def strip_not(e, positive=True):
+    while isinstance(e, ast.UnaryOp) and isinstance(e.op, ast.Not):
+        e, positive = e.operand, not positive
+    return e, positive
+
+
+def bool_leaves(test):
+    """Leaves of the and / or / not structure of a test."""
+    t, _ = strip_not(test)
+    if isinstance(t, ast.BoolOp):
+        out = []
+        for v in t.values:
+            out += bool_leaves(v)
+        return out
+    return [t]
+
+
+def bool_eval(test, val):
+    """Value of `test` given truth values for its leaves (`val`: id(leaf) -> bool)."""
+    t, pos = strip_not(test)
+    if isinstance(t, ast.BoolOp):
+        vs = [bool_eval(v, val) for v in t.values]
+        r = all(vs) if isinstance(t.op, ast.And) else any(vs)
+    else:
+        r = val[id(t)]
+    return r if pos else not r
+
+
+def edge_implies(test, label_true: bool, fact_of) -> bool:
+    """Does `test` evaluating to `label_true` imply that at least one leaf establishes the wanted fact?
+    `fact_of(leaf, value)` says whether that leaf having that truth value establishes it.  Decided by the
+    truth table over the leaves (free leaves range over both values)."""
+    leaves = bool_leaves(test)
+    if len(leaves) > 10:
+        return False
+    import itertools
+    feasible = False
+    for bits in itertools.product((False, True), repeat=len(leaves)):
+        val = {id(lf): b for lf, b in zip(leaves, bits)}
+        if bool_eval(test, val) != label_true:
+            continue
+        feasible = True
+        if not any(fact_of(lf, b) for lf, b in zip(leaves, bits)):
+            return False
+    return feasible
+
+
+def linear_terms(e, sign=1, out=None):
+    """`a + b - c` -> [(+1, a), (+1, b), (-1, c)]"""
+    out = [] if out is None else out
+    if isinstance(e, ast.BinOp) and isinstance(e.op, (ast.Add, ast.Sub)):
+        linear_terms(e.left, sign, out)
+        linear_terms(e.right, sign if isinstance(e.op, ast.Add) else -sign, out)
+    elif isinstance(e, ast.UnaryOp) and isinstance(e.op, ast.USub):
+        linear_terms(e.operand, -sign, out)
+    elif isinstance(e, ast.UnaryOp) and isinstance(e.op, ast.UAdd):
+        linear_terms(e.operand, sign, out)
+    else:
+        out.append((sign, e))
+    return out
